@@ -307,6 +307,11 @@ func (s *Stream) ReceiveFrame(ctx context.Context) ([]byte, error) {
 
 	// Handle zero-length messages
 	if messageLength == 0 {
+		// An encrypting sender never emits an empty wire frame (every protected
+		// frame carries at least the 16-byte tag), so one cannot be authenticated.
+		if s.gcm != nil && s.encrypted {
+			return nil, fmt.Errorf("zero-length frame on encrypted stream")
+		}
 		return []byte{}, nil
 	}
 
@@ -362,6 +367,11 @@ func (s *Stream) ReceiveFrameWithEnd(ctx context.Context) ([]byte, byte, error) 
 
 	// Handle zero-length messages
 	if messageLength == 0 {
+		// An encrypting sender never emits an empty wire frame (every protected
+		// frame carries at least the 16-byte tag), so one cannot be authenticated.
+		if s.gcm != nil && s.encrypted {
+			return nil, 0, fmt.Errorf("zero-length frame on encrypted stream")
+		}
 		// Track header for AAD digest calculation
 		if s.recvDigest != nil && s.finalRecvDigest == nil {
 			s.recvDigest.Write(header)
